@@ -177,7 +177,8 @@ CaseLine(i) == LET x == CaseSeq[i]
                     w |-> IF NotJudged(t.t) THEN "" ELSE "TYPE_IS((" \o e \o "), " \o Spelling(t.t, Lang) \o ");",
                     rule |-> t.rule]
 
-Gen == ndJsonSerialize(IOEnv.C09_CASES, <<Header>> \o [i \in 1..Len(CaseSeq) |-> CaseLine(i)])
+\* (the parameter keeps TLC from evaluating the side-effecting definitions while it preprocesses constants)
+Gen(u) == ndJsonSerialize(IOEnv.C09_CASES, <<Header>> \o [i \in 1..Len(CaseSeq) |-> CaseLine(i)])
 
 --------------------------------------------------------------------------
 (* Judge.  Observation of case i: [id, expr, has, tok, type, sign, pointer,  *)
@@ -201,7 +202,7 @@ Row(i, o) ==
             expected |-> Describe(e.t), clang |-> o.clang,
             got |-> IF o.has THEN o.type \o "/" \o o.sign \o "/" \o ToString(o.pointer) ELSE "-"]
 
-Judge ==
+Judge(u) ==
   LET obs == ndJsonDeserialize(IOEnv.C09_OBS)
   IN
   /\ Assert(Len(obs) = Len(CaseSeq), <<"observations do not match the case list", Len(obs), Len(CaseSeq)>>)
@@ -215,12 +216,12 @@ Judge ==
                      "untyped", count("untyped"), "unmapped", count("unmapped"), "open", count("open"),
                      "desync", count("desync")>>)
 
-Probe == LET r == IOExec(<<"python3", IOEnv.C09_DRIVER, IOEnv.C09_WORK>>)
+Probe(u) == LET r == IOExec(<<"python3", IOEnv.C09_DRIVER, IOEnv.C09_WORK>>)
          IN  Assert(r.exitValue = 0, <<"probe driver failed", r.exitValue, r.stderr>>)
 
-ASSUME CASE IOEnv.C09_MODE = "gen" -> Gen
-         [] IOEnv.C09_MODE = "judge" -> Judge
-         [] IOEnv.C09_MODE = "run" -> Gen /\ Probe /\ Judge
+ASSUME CASE IOEnv.C09_MODE = "gen" -> Gen(1)
+         [] IOEnv.C09_MODE = "judge" -> Judge(1)
+         [] IOEnv.C09_MODE = "run" -> Gen(1) /\ Probe(1) /\ Judge(1)
 
 --------------------------------------------------------------------------
 (* Laws of the type rules themselves (guards against a wrong specification) *)
